@@ -35,6 +35,13 @@ type SearchCfg struct {
 	Deadline    time.Time
 	MaxStates   int
 	OnEdge      func(from *world.State, label string, rec *world.Rec, to *world.State) // optional observer
+	// OnFault judges a faulted reconcile against the fault-free one from the same state.
+	OnFault func(from *world.State, label string, base, faulted *world.Rec) []oracle.Violation
+	// KeepDevEdges records deviation edges on the nodes (needed for recovery-equivalence checks).
+	KeepDevEdges bool
+	// RelabelAfterDeviation: monitor reports on edges reached after >=1 deviation are attributed
+	// to Prop with rule "<orig prop>/<rule>"; reports on deviation-free edges are dropped.
+	RelabelAfterDeviation bool
 }
 
 // Node is one explored state.
@@ -44,12 +51,19 @@ type Node struct {
 	Parent world.Key
 	Via    string
 	Succ   []world.Key // progress successors
+	Dev    []DevEdge   // deviation edges (only if KeepDevEdges)
 	Quiet  bool        // its reconcile is a write-free self-loop
 	Goal   string      // "" if the goal holds
 	Excuse string
 	Bottom int32   // id of the bottom SCC this node forms (>=0) else -1
 	Reach  []int32 // ids of bottom SCCs reachable by progress transitions
 	done   bool
+}
+
+// DevEdge is a deviation edge.
+type DevEdge struct {
+	Label string
+	To    world.Key
 }
 
 // Graph is the explored progress graph.
@@ -239,6 +253,9 @@ func Search(rep *Report, cfg SearchCfg, seeds []Seed) *Graph {
 				}
 				for _, s := range e.dev {
 					g.Transitions++
+					if cfg.KeepDevEdges {
+						n.Dev = append(n.Dev, DevEdge{s.label, s.key})
+					}
 					if _, ok := g.Nodes[s.key]; !ok {
 						g.Nodes[s.key] = &Node{Depth: int8(depth + 1), Seed: -1, Parent: e.from, Via: s.label, Bottom: -1}
 						nextLayer = append(nextLayer, item{s.state, s.key})
@@ -286,7 +303,7 @@ func (g *Graph) expand(rep *Report, w *world.World, st *world.State, key world.K
 		w.Load(st)
 		rec = w.Reconcile(cfg.Key, nil)
 		e.nrec++
-		g.judge(rep, key, "reconcile", rec)
+		g.judge(rep, key, "reconcile", rec, depthOf(g, key))
 		k := rec.After.Key()
 		e.quiet = len(rec.Writes()) == 0 && k == key
 		e.prog = append(e.prog, succ{"reconcile", rec.After, k})
@@ -325,7 +342,19 @@ func (g *Graph) expand(rep *Report, w *world.World, st *world.State, key world.K
 				w.Load(st)
 				fr := w.Reconcile(cfg.Key, world.FaultPlan{c.ID: kind})
 				e.nrec++
-				g.judge(rep, key, label, fr)
+				g.judge(rep, key, label, fr, depthOf(g, key)+1)
+				if cfg.OnFault != nil {
+					for _, v := range cfg.OnFault(st, label, rec, fr) {
+						v := v
+						rep.Violation(v.Prop, v.Rule, v.Msg, func() interface{} {
+							p := g.PathTo(key)
+							p.Transitions = append(p.Transitions, label)
+							p.LastCalls = CallStrings(fr)
+							p.Note = v.String()
+							return p
+						})
+					}
+				}
 				if cfg.OnEdge != nil {
 					cfg.OnEdge(st, label, fr, fr.After)
 				}
@@ -336,10 +365,26 @@ func (g *Graph) expand(rep *Report, w *world.World, st *world.State, key world.K
 	return e
 }
 
-func (g *Graph) judge(rep *Report, from world.Key, label string, rec *world.Rec) {
+func depthOf(g *Graph, k world.Key) int {
+	if n := g.Nodes[k]; n != nil {
+		return int(n.Depth)
+	}
+	return 0
+}
+
+func (g *Graph) judge(rep *Report, from world.Key, label string, rec *world.Rec, devs int) {
 	var vs []oracle.Violation
 	if g.Cfg.Judge != nil {
 		vs = g.Cfg.Judge(oracle.NewView(rec))
+	}
+	if g.Cfg.RelabelAfterDeviation {
+		if devs == 0 {
+			vs = nil
+		}
+		for i := range vs {
+			vs[i].Rule = vs[i].Prop + "/" + vs[i].Rule
+			vs[i].Prop = g.Cfg.Prop
+		}
 	}
 	if rec.Panic != nil {
 		vs = append(vs, oracle.Violation{Prop: g.Cfg.Prop, Rule: "panic@" + PanicSite(rec.Stack), Msg: fmt.Sprintf("reconcile panicked: %v", rec.Panic)})
@@ -531,6 +576,65 @@ func (g *Graph) CheckConvergence(rep *Report) (bottoms, excused int) {
 				p.Note = "bottom state: " + why
 				return p
 			})
+		}
+	}
+	return
+}
+
+// CheckRecovery verifies, for every recorded deviation edge s -> t, that the
+// bottom SCCs reachable from t are among those reachable from s: a deviation
+// never opens a final state that was not reachable without it.
+func (g *Graph) CheckRecovery(rep *Report, only func(label string) bool, envChanging func(label string) bool) (edges int) {
+	keys := make([]world.Key, 0, len(g.Nodes))
+	for k := range g.Nodes {
+		keys = append(keys, k)
+	}
+	sort.Slice(keys, func(i, j int) bool { return string(keys[i][:]) < string(keys[j][:]) })
+	for _, k := range keys {
+		n := g.Nodes[k]
+		if !n.done {
+			continue
+		}
+		in := map[int32]bool{}
+		for _, b := range n.Reach {
+			in[b] = true
+		}
+		for _, d := range n.Dev {
+			if only != nil && !only(d.Label) {
+				continue
+			}
+			t := g.Nodes[d.To]
+			if t == nil || !t.done {
+				continue
+			}
+			edges++
+			for _, b := range t.Reach {
+				if in[b] {
+					continue
+				}
+				bk := g.Bottoms[b]
+				bn := g.Nodes[bk]
+				if bn.Excuse != "" {
+					continue // outside the convergence premise
+				}
+				k, d, b := k, d, b
+				why := "a final state that no fault-free run from the same state reaches"
+				rule := "recovery-reaches-different-final-state"
+				if bn.Goal != "" || !bn.Quiet || g.BottomSize[b] > 1 {
+					rule = "recovery-gets-stuck"
+					why = "a final state that is not a quiescent goal state (" + bn.Goal + ")"
+				} else if envChanging != nil && envChanging(d.Label) {
+					continue // the environment changed the world: a different (good) final state is legitimate
+				}
+				rep.Violation(g.Cfg.Prop, rule, fmt.Sprintf("after %s the system can end in %s", d.Label, why), func() interface{} {
+					p := g.PathTo(k)
+					p.Transitions = append(p.Transitions, d.Label)
+					q := g.PathTo(bk)
+					p.Note = fmt.Sprintf("after the last transition, progress leads to the bottom state reached (from a seed) by: %v / seed %s", q.Transitions, q.SeedLabel)
+					return p
+				})
+				break
+			}
 		}
 	}
 	return
